@@ -227,7 +227,11 @@ where
     GA<E, N>: Remove<E, N, Output = GA<E, M>>,
 {
     let n = N::USIZE;
-    for i in [0, 1, n / 2, n - 2, n - 1] {
+    let mut idx = vec![0, 1, 2, 3, n / 4, n / 2 - 1, n / 2, n / 2 + 1, n - 3, n - 2, n - 1];
+    idx.retain(|i| *i < n);
+    idx.sort();
+    idx.dedup();
+    for i in idx {
         for swap in [false, true] {
             let op = if swap { "swap_remove" } else { "remove" };
             st.check_case("C09", op, E::NAME, || format!("C09 {op} {} N={n} i={i}", E::NAME), true, || {
@@ -243,8 +247,29 @@ where
     }
 }
 
+/// out-of-range indices on large arrays must panic too (and drop everything once)
+fn t_remove_oob_large<E: Elem, N: ArrayLength, M: ArrayLength>(st: &mut Stats)
+where
+    GA<E, N>: Remove<E, N, Output = GA<E, M>>,
+{
+    let n = N::USIZE;
+    for i in [n, n + 1, usize::MAX / 2, usize::MAX - 1, usize::MAX] {
+        for swap in [false, true] {
+            let op = if swap { "swap_remove" } else { "remove" };
+            st.check_case("C09", op, E::NAME, || format!("C09 {op} {} N={n} i={i}", E::NAME), true, || {
+                let (a, _v) = mk::<E, N>();
+                match vkit::catch(move || if swap { a.swap_remove(i) } else { a.remove(i) }) {
+                    vkit::Caught::Returned(_) => Err(format!("NoPanic: {op}({i}) on length {n} returned instead of panicking")),
+                    vkit::Caught::Other(_) => Ok(()),
+                    vkit::Caught::Injected(..) => Err("HarnessBug: injected".into()),
+                }
+            });
+        }
+    }
+}
+
 macro_rules! do_lengthen { ($st:expr, $args:expr, $E:ty; $(($n:literal,$m:literal))*) => { $( if $m <= $args.maxn.saturating_add(1) { t_lengthen::<$E, U<$n>, U<$m>>($st); t_remove::<$E, U<$m>, U<$n>>($st); } )* }; }
-macro_rules! do_lengthen_big { ($st:expr, $args:expr, $E:ty; $(($n:literal,$m:literal))*) => { $( if $m <= $args.maxn.saturating_add(1) { t_lengthen::<$E, U<$n>, U<$m>>($st); t_remove_sampled::<$E, U<$m>, U<$n>>($st); } )* }; }
+macro_rules! do_lengthen_big { ($st:expr, $args:expr, $E:ty; $(($n:literal,$m:literal))*) => { $( if $m <= $args.maxn.saturating_add(1) { t_lengthen::<$E, U<$n>, U<$m>>($st); t_remove_sampled::<$E, U<$m>, U<$n>>($st); t_remove_oob_large::<$E, U<$m>, U<$n>>($st); } )* }; }
 macro_rules! do_split { ($st:expr, $args:expr, $E:ty; $(($n:literal,$k:literal,$r:literal))*) => { $( if $n <= $args.maxn { t_split::<$E, U<$n>, U<$k>, U<$r>>($st); } )* }; }
 macro_rules! do_concat { ($st:expr, $args:expr, $E:ty; $(($n:literal,$m:literal,$s:literal))*) => { $( if $s <= $args.maxn { t_concat::<$E, U<$n>, U<$m>, U<$s>>($st); } )* }; }
 
